@@ -14,7 +14,9 @@ impl Resolver<'_> {
         col_name: &str,
     ) -> Result<(), String> {
         let table = self.root_mod.module.get_mut(table_ident).unwrap();
-        let table_decl = table.kind.as_table_decl_mut().unwrap();
+        let Some(table_decl) = table.kind.as_table_decl_mut() else {
+            return Err(format!("`{table_ident}` is not a table"));
+        };
 
         let Some(columns) = table_decl.ty.as_mut().and_then(|t| t.as_relation_mut()) else {
             return Err(format!("Variable {table_ident:?} is not a relation."));
